@@ -32,12 +32,33 @@ def rightIdB (c : Conn) (m : Msg) : Bool :=
   | some tid, some v => (pyInt v).getD 0 == tid
   | _, _ => true
 
-def benignB (c : Conn) (m : Msg) : Bool := inSeqB c m && routineB m && rightIdB c m
+def ignoredResendB (c : Conn) (m : Msg) : Bool :=
+  m.mtype == mResendRequest &&
+    match (m.get? tBeginSeqNo).bind pyInt, (m.get? tEndSeqNo).bind pyInt with
+    | some b, some _ => decide (b < 1) || decide (c.sess.nextOut ≤ b)
+    | _, _ => false
+
+theorem ignoredResendB_sound {c : Conn} {m : Msg} (h : ignoredResendB c m = true) : IgnoredResend c m := by
+  simp only [ignoredResendB, Bool.and_eq_true, beq_iff_eq] at h
+  obtain ⟨hm, h2⟩ := h
+  cases hb : (m.get? tBeginSeqNo).bind pyInt with
+  | none => simp [hb] at h2
+  | some b =>
+    cases he : (m.get? tEndSeqNo).bind pyInt with
+    | none => simp [hb, he] at h2
+    | some e =>
+      simp only [hb, he, Bool.or_eq_true, decide_eq_true_eq] at h2
+      exact ⟨hm, b, e, hb, he, h2⟩
+
+def benignB (c : Conn) (m : Msg) : Bool := inSeqB c m && (routineB m || ignoredResendB c m) && rightIdB c m
 
 theorem benignB_sound {c : Conn} {m : Msg} (h : benignB c m = true) : Benign c m := by
   simp only [benignB, Bool.and_eq_true] at h
   obtain ⟨⟨h1, h2⟩, h3⟩ := h
-  refine ⟨inSeqB_sound h1, routineB_sound h2, ?_⟩
+  refine ⟨inSeqB_sound h1, ?_, ?_⟩
+  · rcases Bool.or_eq_true _ _ |>.mp h2 with h | h
+    · exact Or.inl (routineB_sound h)
+    · exact Or.inr (ignoredResendB_sound h)
   intro _ tid v ht hv
   simpa [rightIdB, ht, hv] using h3
 
